@@ -4,7 +4,7 @@ import random
 
 META = {'explanation': '__eq__/__ne__/__hash__ contracts proved over the four classes and the modelled operand kinds; plus a bounded native '
                        'sweep over the remaining operand kinds.'}
-EXTRA_TASKS = ['eq_operand_kinds']
+EXTRA_TASKS = ['eq_operand_kinds', 'bitarray_endianness']
 
 
 def _eq_case(seed, i):
@@ -94,3 +94,13 @@ def eq_operand_kinds(tier='quick', seed=0):
                          'function': '== and != against str/bytes/bytearray/memoryview (strided, reversed)/array.array/bitarray (both endiannesses)/iterables/BytesIO and non-promotable objects',
                          'bound': f'{N} random (content, operand kind) cases', 'evaluations': N, 'failures': fails[:3]}],
             'summary': f'{N} cases, {len(fails)} failures'}
+
+
+def bitarray_endianness(tier='quick', seed=0):
+    """(shared with C08) objects built from little-endian bitarrays are == to the same bits built otherwise: they must hash alike"""
+    from props import C08
+    r = C08.bitarray_endianness(tier, seed)
+    for b in r.get('bounded', []):
+        b['id'] = b['id'].replace('C08/', 'C13/')
+    r['id'] = 'C13.endianness'
+    return r
